@@ -23,6 +23,7 @@
 #include <sstream>
 #include <fstream>
 #include <algorithm>
+#include <functional>
 #include <new>
 #include <ucontext.h>
 #include <malloc.h>
@@ -451,7 +452,10 @@ struct Proxy : public BusRequest {
   ~Proxy() override {
     if (dead) { bad("handler-deleted-request-twice", rid); return; }
     dead = true; g_deadProxies++;
-    if (m_deleteOnFinish && real) { BusRequest* r = real; real = nullptr; delete r; }   // deleting the queued object deletes the request
+    if (m_deleteOnFinish && real) {   // deleting the queued object deletes the request
+      BusRequest* r = real; real = nullptr;
+      if (liveOfReal(r)) delete r; else bad("handler-deletes-request-that-is-already-deleted", rid);
+    }
   }
   static void operator delete(void*) {}   // proxies are never reused: a second delete is reported, not a crash
 };
@@ -842,6 +846,7 @@ static int cmdReplay(const char* inPath, const char* outPath) {
     while (!tk.empty() && (tk.back() == '\n' || tk.back() == '\r')) tk.pop_back();
     string label = execEdge(tk);
     out.raw("{\"id\":" + std::to_string(id) + ",\"succ\":[{\"in\":\"" + label + "\",\"ev\":[" + g_ev + "],\"to\":" + std::to_string(id + 1) + "}]}\n");
+    fflush(out.f);
     id++;
   }
   out.raw("{\"id\":" + std::to_string(id) + ",\"succ\":[]}\n");
@@ -858,11 +863,35 @@ static int cmdRandom(const char* outPath, long steps) {
     if (!ct.empty() && rng.below(100) < 6) { label = execEdge(ct[rng.below((unsigned)ct.size())]); clientCalls++; }
     else { g_dec.rng = &rng; label = execEdge(""); g_dec.rng = nullptr; }
     out.raw("{\"id\":" + std::to_string(id) + ",\"succ\":[{\"in\":\"" + label + "\",\"ev\":[" + g_ev + "],\"to\":" + std::to_string(id + 1) + "}]}\n");
+    fflush(out.f);
     id++;
     if (g_leak) break;
   }
   out.raw("{\"id\":" + std::to_string(id) + ",\"succ\":[]}\n");
   printf("{\"nodes\":%ld,\"edges\":%ld,\"random\":true,\"client_calls\":%ld}\n", id, id - 1, clientCalls);
+  return 0;
+}
+
+// linear modes run in a forked child writing line by line: a crash inside the real code (e.g. a call through a deleted
+// request object) ends the execution with a "bad" event instead of killing the harness
+static int inChild(const char* outPath, const std::function<int()>& body) {
+  fflush(nullptr);
+  pid_t c = fork();
+  if (c < 0) { perror("fork"); return 2; }
+  if (c == 0) { int r = body(); fflush(nullptr); _exit(r); }
+  int st; waitpid(c, &st, 0);
+  if (WIFEXITED(st) && WEXITSTATUS(st) < 40) return WEXITSTATUS(st);
+  int code = WIFEXITED(st) ? WEXITSTATUS(st) : 100 + WTERMSIG(st);
+  std::ifstream f(outPath); string l; vector<string> lines;
+  while (std::getline(f, l)) if (!l.empty() && l.back() == '}') lines.push_back(l);
+  f.close();
+  while (!lines.empty() && lines.back().find("\"succ\":[]}") != string::npos) lines.pop_back();
+  vf::Out out(outPath);
+  for (const string& x : lines) out.raw(x + "\n");
+  long id = (long)lines.size() + 1;
+  out.raw("{\"id\":" + std::to_string(id) + ",\"succ\":[{\"in\":\"?\",\"ev\":[{\"e\":\"bad\",\"what\":\"crash-in-real-code\",\"a\":" + std::to_string(code) + "}],\"to\":" + std::to_string(id + 1) + "}]}\n");
+  out.raw("{\"id\":" + std::to_string(id + 1) + ",\"succ\":[]}\n");
+  printf("{\"nodes\":%ld,\"edges\":%ld,\"crashed\":%d}\n", id + 1, id, code);
   return 0;
 }
 
@@ -876,7 +905,7 @@ int main(int argc, char** argv) {
   signal(SIGSEGV, crashHandler); signal(SIGBUS, crashHandler); signal(SIGABRT, crashHandler);
   construct();
   if (mode == "graph") return cmdGraph(argv[2]);
-  if (mode == "replay") return cmdReplay(argv[3], argv[2]);
-  if (mode == "random") return cmdRandom(argv[2], atol(argv[3]));
+  if (mode == "replay") return inChild(argv[2], [&]() { return cmdReplay(argv[3], argv[2]); });
+  if (mode == "random") return inChild(argv[2], [&]() { return cmdRandom(argv[2], atol(argv[3])); });
   return 2;
 }
